@@ -21,7 +21,11 @@ use serde::{Deserialize, Serialize};
 use serde_json::{json, Value as J};
 use std::collections::HashMap;
 use std::hash::Hash;
+use std::num::NonZeroUsize;
 use std::sync::Arc;
+use std::time::Duration;
+use swimos_utilities::future::{Quantity, RetryStrategy};
+use swimos_utilities::routing::RouteUri;
 use swimos_form::write::StructuralWritable;
 use swimos_form::{Form, Tag};
 use swimos_model::{Attr, BigInt, BigUint, Blob, Item, Text, Timestamp, Value};
@@ -47,7 +51,7 @@ fn val_to_json(v: &Value) -> J {
         Value::BigInt(n) => json!({"k": "bigint", "v": n.to_string()}),
         Value::BigUint(n) => json!({"k": "biguint", "v": n.to_string()}),
         Value::Text(t) => json!({"k": "text", "v": t.as_str()}),
-        Value::Data(b) => json!({"k": "data", "v": b.clone().into_decoded().unwrap_or_default()}),
+        Value::Data(b) => json!({"k": "data", "v": b.as_ref()}),
         Value::Record(attrs, items) => {
             let a: Vec<J> = attrs
                 .iter()
@@ -84,7 +88,7 @@ fn json_to_val(j: &J) -> Value {
         "text" => Value::Text(Text::new(j["v"].as_str().unwrap())),
         "bigint" => Value::BigInt(j["v"].as_str().unwrap().parse().unwrap()),
         "biguint" => Value::BigUint(j["v"].as_str().unwrap().parse().unwrap()),
-        "data" => Value::Data(Blob::encode(bytes_of(&j["v"]))),
+        "data" => Value::Data(Blob::from_vec(bytes_of(&j["v"]))),
         "rec" => {
             let attrs = j["attrs"]
                 .as_array()
@@ -189,6 +193,51 @@ impl TJ for Timestamp {
         chrono::Utc.timestamp_micros(m).single().map(Timestamp::from).ok_or_else(|| "bad timestamp".to_string())
     }
 }
+impl TJ for NonZeroUsize {
+    fn tj_to(&self) -> J { json!(self.get()) }
+    fn tj_from(j: &J) -> Result<Self, String> { NonZeroUsize::new(j.as_u64().ok_or("number expected")? as usize).ok_or_else(|| "zero".to_string()) }
+}
+impl TJ for Blob {
+    fn tj_to(&self) -> J { json!(self.as_ref()) }
+    fn tj_from(j: &J) -> Result<Self, String> { Ok(Blob::from_vec(bytes_of(j))) }
+}
+impl TJ for Value {
+    fn tj_to(&self) -> J { val_to_json(self) }
+    fn tj_from(j: &J) -> Result<Self, String> { Ok(json_to_val(j)) }
+}
+impl<T: TJ> TJ for Quantity<T> {
+    fn tj_to(&self) -> J { match self { Quantity::Finite(t) => t.tj_to(), Quantity::Infinite => json!("infinite") } }
+    fn tj_from(j: &J) -> Result<Self, String> {
+        if j == "infinite" { Ok(Quantity::Infinite) } else { T::tj_from(j).map(Quantity::Finite) }
+    }
+}
+/// the values the constructors of RetryStrategy build (its transient counters are not part of the form)
+impl TJ for RetryStrategy {
+    fn tj_to(&self) -> J {
+        match self {
+            RetryStrategy::Interval(s) => match &s.delay {
+                Some(d) => json!({"Interval": {"delay": d.tj_to(), "retries": s.retry.tj_to()}}),
+                None => json!({"Immediate": {"retries": s.retry.tj_to()}}),
+            },
+            RetryStrategy::Exponential(s) => json!({"Exponential": {"max_interval": s.max_interval.tj_to(), "max_backoff": s.max_backoff.tj_to()}}),
+            RetryStrategy::None(_) => json!("None"),
+        }
+    }
+    fn tj_from(j: &J) -> Result<Self, String> {
+        if j == "None" {
+            Ok(RetryStrategy::none())
+        } else if let Some(o) = j.get("Immediate") {
+            Ok(RetryStrategy::immediate(NonZeroUsize::tj_from(&o["retries"])?))
+        } else if let Some(o) = j.get("Interval") {
+            Ok(RetryStrategy::interval(Duration::tj_from(&o["delay"])?, Quantity::<NonZeroUsize>::tj_from(&o["retries"])?))
+        } else if let Some(o) = j.get("Exponential") {
+            Ok(RetryStrategy::exponential(Duration::tj_from(&o["max_interval"])?, Quantity::<Duration>::tj_from(&o["max_backoff"])?))
+        } else {
+            Err("retry strategy".to_string())
+        }
+    }
+}
+tj_string_like!(RouteUri, |s: &RouteUri| s.as_str().to_string(), |k: &str| k.parse::<RouteUri>().map_err(|e| format!("{:?}", e)));
 impl TJ for std::time::Duration {
     fn tj_to(&self) -> J { json!({"secs": self.as_secs(), "nanos": self.subsec_nanos()}) }
     fn tj_from(j: &J) -> Result<Self, String> {
@@ -345,13 +394,17 @@ form_ty! {
     struct HdrValue { #[form(header_body)] #[serde(with = "valjson")] hb: Value, x: i32 }
 
     struct CollHdr { xs: Vec<HdrBoth>, o: Option<HdrBoth> }
+
+    struct AttrTup { #[form(attr)] a: (i32, String), x: i32 }
+
+    struct HBodyTup { #[form(header_body)] hb: (i32, String), x: i32 }
 }
 
 tj_serde!(
     Unit, Simple, Two, Tup, Renamed, TupRen, WithAttr, TwoAttrs, HdrBody, HdrSlots, HdrOpt, AttrVec, AttrMap, HdrBoth, HdrVec,
     HdrNest, BodyVec, BodyStr, BodyNest, Skippy, SkipTup, Opt, Coll, Gen<i32>, Gen<String>, Gen<Two>, Gen<Option<Two>>, Nested,
     VecNest, NewT, NewS, TagField, Shape, Op<String, i32>, Op<i32, Two>, ConvStruct, ConvEnum, Nums, ModelVal, WithValue,
-    BodyValue, HdrValue, CollHdr
+    BodyValue, HdrValue, CollHdr, AttrTup, HBodyTup
 );
 
 // ------------------------------------------------------------------ observations
@@ -488,9 +541,19 @@ fn run<T: Form + TJ + Clone>(case: &J) -> J {
             }
             o["printed"] = J::Array(pr);
             // MessagePack: typed writer -> typed reader ; typed writer -> model reader
+            // typed value -> bridge -> typed value, without materialising the model (informative)
+            o["typed_bridge"] = typed(T::try_read_from(&x));
+            o["typed_bridge_into"] = typed(T::try_transform(x.clone()));
             match msgpack_of(&x) {
                 Ok(buf) => {
                     o["mp_len"] = json!(buf.len());
+                    // the consuming writer (write_into) must produce the same bytes
+                    let mut into_buf = BytesMut::with_capacity(256);
+                    let into_ok = {
+                        let mut writer = (&mut into_buf).writer();
+                        x.clone().write_into(MsgPackInterpreter::new(&mut writer)).is_ok()
+                    };
+                    o["mp_into_same"] = json!(into_ok && into_buf == buf);
                     let same = msgpack_of(&asv).map(|b| b == buf).unwrap_or(false);
                     o["mp_model_same_bytes"] = json!(same);
                     let mut b1 = buf.clone().freeze();
@@ -560,6 +623,7 @@ battery! {
     "VecBodyStr" => Vec<BodyStr>, "VecShape" => Vec<Shape>, "VecOpSI" => Vec<Op<String, i32>>, "VecTagField" => Vec<TagField>,
     "VecTup" => Vec<Tup>, "VecOpt" => Vec<Opt>, "MapShape" => HashMap<String, Shape>,
     "VecAttrVec" => Vec<AttrVec>, "VecAttrMap" => Vec<AttrMap>, "Duration" => std::time::Duration,
+    "RetryStrategy" => RetryStrategy, "Value" => Value, "AttrTup" => AttrTup, "HBodyTup" => HBodyTup,
 }
 
 /// "<position>_<kind>": the position battery
@@ -593,6 +657,10 @@ fn dispatch_pos(pos: &str, kind: &str, case: &J) -> J {
         "u32" => run_key::<u32>(pos, case),
         "u64" => run_key::<u64>(pos, case),
         "usize" => run_key::<usize>(pos, case),
+        "nzusize" => run_key::<NonZeroUsize>(pos, case),
+        "uri" => run_key::<RouteUri>(pos, case),
+        "mblob" => run_pos::<Blob>(pos, case),
+        "retry" => run_pos::<RetryStrategy>(pos, case),
         "f64" => run_pos::<f64>(pos, case),
         "bool" => run_key::<bool>(pos, case),
         "string" => run_key::<String>(pos, case),
